@@ -316,6 +316,70 @@ class Models(Structural):
         from .lib import dtype_name
         return self.full(shape, 1, dtype_name(dtype, 'float'))
 
+    @reg('numpy.full')
+    def np_full(self, shape, fill_value, dtype=None):
+        from .lib import dtype_name
+        v = N(fill_value) if T.is_scalar(fill_value) else self.lib.scalar_of(fill_value)
+        dt = dtype_name(dtype, None) if dtype is not None else ('bool' if T.is_bool_like(v) else 'int' if T.is_int_like(v) else
+                                                                   'complex' if isinstance(v, T.Cx) else 'float')
+        return self.full(shape, v, dt)
+
+    @reg('numpy.full_like')
+    def np_full_like(self, a, fill_value, dtype=None, shape=None):
+        from .lib import dtype_name
+        a = self.asarray(a)
+        v = N(fill_value) if T.is_scalar(fill_value) else self.lib.scalar_of(fill_value)
+        return self.full(self._like_shape(shape, a), v, dtype_name(dtype, a.dtype))
+
+    @reg('numpy.hstack')
+    def np_hstack(self, tup):
+        parts = [self.lib.models.np_atleast_1d(p) if hasattr(self.lib.models, 'np_atleast_1d') else self.asarray(p) for p in tup]
+        if any(len(p.shape) != 1 for p in parts):
+            raise EngineError('hstack of nd arrays')
+        return self.lib.table['numpy.concatenate'](parts, axis=0)
+
+    @reg('numpy.square')
+    def np_square(self, x):
+        import ast as _ast
+        return self.lib.binop(_ast.Mult, x, x)
+
+    @reg('numpy.power')
+    def np_power(self, a, b):
+        import ast as _ast
+        return self.lib.binop(_ast.Pow, a, b)
+
+    @reg('numpy.isscalar')
+    def np_isscalar(self, x):
+        return T.is_scalar(x) and x is not None
+
+    @reg('numpy.ascontiguousarray')
+    def np_ascontiguousarray(self, x, dtype=None):
+        return self.np_asarray(x, dtype=dtype)
+
+    @reg('numpy.isfinite')
+    def np_isfinite(self, x):
+        # A3: every value is a real number
+        if is_arr(x):
+            return emap(lambda v: True, 'bool', x)
+        return True
+
+    @reg('numpy.isnan', 'numpy.isinf')
+    def np_isnan(self, x):
+        if is_arr(x):
+            return emap(lambda v: False, 'bool', x)
+        return False
+
+    @reg('numpy.allclose')
+    def np_allclose(self, a, b, rtol=None, atol=None):
+        c = self.np_isclose(a, b, rtol=rtol, atol=atol)
+        return self.lib.table['numpy.all'](c) if is_arr(c) else c
+
+    @reg('numpy.count_nonzero')
+    def np_count_nonzero(self, x):
+        import ast as _ast
+        x = self.asarray(x)
+        return self.np_sum(self.lib.compare(_ast.NotEq, x, 0))
+
     @reg('numpy.empty')
     def np_empty(self, shape, dtype=None):
         """Uninitialised array: ARBITRARY content (a fresh uninterpreted function), so only cells the code writes are known."""
